@@ -21,7 +21,6 @@ def main():
 
     bridge.ensure_tensora()
     from tensora import BackendCompiler, tensor_method
-    from tensora.compile._porcelain import cachable_tensor_method
 
     for line in sys.stdin:
         req = json.loads(line)
@@ -36,7 +35,7 @@ def main():
                 cap = req.get("capacity")
                 with bridge.knobs(capacity=cap):
                     if cap is not None:
-                        cachable_tensor_method.cache_clear()
+                        bridge.clear_kernel_cache()
                     try:
                         fn = tensor_method(case["assignment"], dict(case["formats"]), backend)
                     except Exception as e:  # noqa: BLE001
@@ -58,7 +57,7 @@ def main():
                         after = {nm: C.raw_of_tensor(t) for nm, t in args.items()}
                         rep = {"raw": raw, "inputs_after": after}
                 if cap is not None:
-                    cachable_tensor_method.cache_clear()
+                    bridge.clear_kernel_cache()
             else:
                 rep = {"error": f"unknown op {op}"}
         except Exception as e:  # noqa: BLE001
